@@ -6,6 +6,7 @@ package c14
 
 import (
 	"crypto/ecdsa"
+	"crypto/elliptic"
 	"crypto/rsa"
 	"crypto/x509"
 	"crypto/x509/pkix"
@@ -225,6 +226,8 @@ func applicable(keyClass, cont string) bool {
 		return isSM2 || isECDH || isECDSA || isRSA
 	case "pkcs1":
 		return isRSA
+	case "raw-priv", "raw-pub":
+		return isSM2 || isECDH
 	case "env", "cfca":
 		return isSM2
 	case "sm9-asn1":
@@ -329,6 +332,26 @@ func buildContainer(s cspec) *built {
 		}
 		if s.Cont == "sec1-typed" {
 			b.dec = func(blob, _ []byte) (any, error) { return smx509.ParseTypedECPrivateKey(blob) }
+		}
+	case "raw-priv":
+		// fixed-width big-endian scalar: ecdh.PrivateKey.Bytes / the documented input of sm2.NewPrivateKey
+		switch k := ki.priv.(type) {
+		case *sm2.PrivateKey:
+			b.blob = k.D.FillBytes(make([]byte, 32))
+			b.dec = func(blob, _ []byte) (any, error) { return nilIfErr(sm2.NewPrivateKey(blob)) }
+		case *ecdh.PrivateKey:
+			b.blob = k.Bytes()
+			b.dec = func(blob, _ []byte) (any, error) { return nilIfErr(ecdh.P256().NewPrivateKey(blob)) }
+		}
+	case "raw-pub":
+		b.orig = ki.pub
+		switch k := ki.priv.(type) {
+		case *sm2.PrivateKey:
+			b.blob = elliptic.Marshal(k.Curve, k.X, k.Y)
+			b.dec = func(blob, _ []byte) (any, error) { return nilIfErr(sm2.NewPublicKey(blob)) }
+		case *ecdh.PrivateKey:
+			b.blob = k.PublicKey().Bytes()
+			b.dec = func(blob, _ []byte) (any, error) { return nilIfErr(ecdh.P256().NewPublicKey(blob)) }
 		}
 	case "pkcs1":
 		b.blob = smx509.MarshalPKCS1PrivateKey(ki.priv.(*rsa.PrivateKey))
@@ -580,4 +603,3 @@ func nilIfErr[T any](k *T, err error) (any, error) {
 	return k, err
 }
 
-var _ = ecdh.P256
